@@ -216,3 +216,14 @@ Proof.
     split; [lia|]. exists j. repeat split; [lia|exact E1|exact E2].
   - intros [H1 (j & Hj & E1 & E2)]. split; [lia|]. exists j. split; [apply in_seq; lia|]. rewrite E1, Nat.eqb_refl, E2. reflexivity.
 Qed.
+
+(* ---------- array axes of a world object ------------------------------------------------------------------------------ *)
+Theorem object_axes_spec corr n comps o : StronglySorted lt (object_axes corr n comps o) /\
+  forall a, In a (object_axes corr n comps o) <->
+            (a < n)%nat /\ exists w, (w < length comps)%nat /\ nth w comps (-1) = o /\ cget corr w (n - 1 - a) = true.
+Proof.
+  split; [apply filter_seq_sorted|]. intros a. unfold object_axes. rewrite filter_In, in_seq, existsb_exists. split.
+  - intros [H1 (w & Hw & E)]. apply in_seq in Hw. apply andb_true_iff in E. destruct E as [E1 E2]. apply Z.eqb_eq in E1.
+    split; [lia|]. exists w. repeat split; [lia|exact E1|exact E2].
+  - intros [H1 (w & Hw & E1 & E2)]. split; [lia|]. exists w. split; [apply in_seq; lia|]. rewrite E1, Z.eqb_refl, E2. reflexivity.
+Qed.
